@@ -334,3 +334,170 @@ Proof.
   destruct (a_kind (get_attr sch e a)); destruct (cascade sch e a); try reflexivity;
     destruct (a_required (get_attr sch (a_target (get_attr sch e a)) (a_reverse (get_attr sch e a)))); reflexivity.
 Qed.
+
+(* ================================================================================================ the whole call (closure)
+   Which side removed a link?  A link disappears either because one of its ends is gone, or because an end that is being deleted
+   unlinked it through an attribute whose policy is "clear".  Consequently a partner reached through a CASCADING attribute of a deleted
+   object cannot survive a successful call. *)
+Section Closure.
+Variable sch : schema.
+Hypothesis WF : wf_schema sch = true.
+Variable policy : nat -> nat -> action.
+
+Lemma attr_order_range : forall e a, In a (attr_order sch e) -> a < length (nth e sch []) /\ e < length sch.
+Proof.
+  intros e a H.
+  assert (Ha : a < length (nth e sch [])).
+  { unfold attr_order, attr_ids in H. apply in_app_or in H.
+    assert (G : forall (f : nat * attr -> bool), In a (map fst (filter f (combine (seq 0 (length (nth e sch []))) (nth e sch [])))) -> a < length (nth e sch [])).
+    { intros f Hin. apply in_map_iff in Hin as [[a' x] [E Hin]]. cbn in E. subst a'. apply filter_In in Hin as [Hin _].
+      apply in_combine_l in Hin. apply in_seq in Hin. lia. }
+    destruct H as [H|H]; eapply G; exact H. }
+  split; [assumption|]. destruct (Nat.lt_ge_cases e (length sch)) as [L|L]; [assumption|].
+  rewrite (nth_overflow sch [] L) in Ha. cbn in Ha. lia.
+Qed.
+
+(* two ways of reaching the same stored link: the same end through the same attribute, or the two opposite ends *)
+Lemma two_coverings : forall s l o e a w e' a',
+  typed sch s l -> In a (attr_order sch e) -> In a' (attr_order sch e') ->
+  cov sch e a o l = true -> cov sch e' a' w l = true ->
+  (w = o /\ e' = e /\ a' = a) \/ other sch e' a' l = o.
+Proof.
+  intros s l o e a w e' a' T Ha Ha' C C'.
+  destruct (attr_order_range _ _ Ha) as [Ra Re]. destruct (attr_order_range _ _ Ha') as [Ra' Re'].
+  unfold cov, other in *. unfold link_is in *.
+  destruct (canon sch e a) eqn:Ec; destruct (canon sch e' a') eqn:Ec';
+    repeat match goal with H : _ && _ = true |- _ => apply andb_true_iff in H as [? ?] end;
+    repeat match goal with H : Nat.eqb _ _ = true |- _ => apply Nat.eqb_eq in H end.
+  - left. repeat split; congruence.
+  - right. congruence.
+  - right. congruence.
+  - left. pose proof (wf_attr_of sch WF _ _ Re Ra) as W. pose proof (wf_attr_of sch WF _ _ Re' Ra') as W'. unfold wf_attr in W, W'.
+    repeat match goal with H : _ && _ = true |- _ => apply andb_true_iff in H as [? ?] end.
+    repeat match goal with H : Nat.eqb _ _ = true |- _ => apply Nat.eqb_eq in H end.
+    split; [congruence|]. split; congruence.
+Qed.
+
+Definition claim (s s' : st) (D : list oid) : Prop :=
+  forall l, In l (links s) -> ~ In l (links s') ->
+  forall w e a, ent_of s w = Some e -> In a (attr_order sch e) -> cov sch e a w l = true ->
+    ent_of s' (other sch e a l) = None \/ In (other sch e a l) D \/ policy e a = AUnlink.
+
+Lemma claim_refl : forall s D, claim s s D.
+Proof. intros s D l H1 H2. contradiction. Qed.
+
+Lemma claim_weaken : forall s s' D, claim s s' [] -> claim s s' D.
+Proof. intros s s' D C l H1 H2 w e a E A V. destruct (C l H1 H2 w e a E A V) as [H|[[]|H]]; auto. Qed.
+
+Lemma cov_end : forall e a w l, cov sch e a w l = true -> w = l_x l \/ w = l_y l.
+Proof.
+  intros e a w l H. unfold cov in H. destruct (canon sch e a); apply andb_true_iff in H as [_ H]; apply Nat.eqb_eq in H; auto.
+Qed.
+
+Lemma claim_trans : forall s s1 s2 D, inv sch s1 -> sub s1 s -> sub s2 s1 -> claim s s1 D -> claim s1 s2 D -> claim s s2 D.
+Proof.
+  intros s s1 s2 D I1 S1 S2 C1 C2 l Hl Hn w e a E A V.
+  destruct (in_dec (fun x y : link => ltac:(decide equality; apply Nat.eq_dec)) l (links s1)) as [H1|H1].
+  - apply (C2 l H1 Hn w e a); [|assumption|assumption].
+    destruct (I1 l H1) as [_ [_ [_ [Hx Hy]]]].
+    destruct (proj1 S1 w) as [Ew|Ew]; [congruence|]. exfalso. destruct (cov_end _ _ _ _ V) as [->| ->]; congruence.
+  - destruct (C1 l Hl H1 w e a E A V) as [H|[H|H]]; auto. left. eapply sub_dead; eassumption.
+Qed.
+
+Definition good2 (rm : oid -> st -> option st) : Prop :=
+  forall o s s', inv sch s -> rm o s = Some s' -> claim s s' [].
+
+Lemma fold_rm_claim : forall rm ps s s', good sch rm -> good2 rm -> inv sch s -> fold_opt rm ps s = Some s' -> claim s s' [].
+Proof.
+  intros rm ps; induction ps as [|p ps IH]; intros s s' G G2 I F; cbn in F.
+  - injection F as <-. apply claim_refl.
+  - destruct (rm p s) as [s1|] eqn:E; [|discriminate].
+    destruct (G _ _ _ I E) as [I1 [S1 _]]. destruct (fold_rm_good sch rm ps s1 s' G I1 F) as [_ [S2 _]].
+    eapply claim_trans; [exact I1 | exact S1 | exact S2 | exact (G2 _ _ _ I E) | now apply IH].
+Qed.
+
+Lemma step_attr_claim : forall rm o e a s s', good sch rm -> good2 rm -> inv sch s ->
+  ent_of s o = Some e -> In a (attr_order sch e) ->
+  step_attr sch policy rm o e a s = Some s' -> claim s s' [o].
+Proof.
+  intros rm o e a s s' G G2 I Eo Ha F. unfold step_attr in F.
+  destruct (partners sch s o e a) as [|p ps] eqn:Eps.
+  - injection F as <-. apply claim_refl.
+  - destruct (policy e a) eqn:Ep.
+    + apply claim_weaken. eapply fold_rm_claim; eassumption.
+    + injection F as <-. intros l Hl Hn w e' a' Ew Ha' V.
+      assert (Hc : cov sch e a o l = true).
+      { destruct (cov sch e a o l) eqn:Ec; [reflexivity|]. exfalso. apply Hn. rewrite unlink_cov. apply filter_In. split; [assumption | now rewrite Ec]. }
+      destruct (two_coverings s l o e a w e' a' (I l Hl) Ha Ha' Hc V) as [[-> [-> ->]]|H].
+      * right; right. exact Ep.
+      * right; left. rewrite H. now left.
+    + discriminate.
+Qed.
+
+Lemma fold_attrs_claim : forall rm o e attrs s s', good sch rm -> good2 rm -> inv sch s ->
+  ent_of s o = Some e \/ ent_of s o = None -> incl attrs (attr_order sch e) ->
+  fold_opt (fun a => step_attr sch policy rm o e a) attrs s = Some s' -> claim s s' [o].
+Proof.
+  intros rm o e attrs; induction attrs as [|a attrs IH]; intros s s' G G2 I Eo Hin F; cbn in F.
+  - injection F as <-. apply claim_refl.
+  - destruct (step_attr sch policy rm o e a s) as [s1|] eqn:E; [|discriminate].
+    destruct (step_attr_good sch policy rm o e a s s1 G I E) as [I1 [S1 _]].
+    destruct (fold_attrs_good sch policy rm o e attrs s1 s' G I1 F) as [_ [S2 _]].
+    assert (C1 : claim s s1 [o]).
+    { destruct Eo as [Eo|Eo].
+      - eapply step_attr_claim; try eassumption. apply Hin. now left.
+      - (* o is no longer alive (a cascade came back to it): it has no links, the step changes nothing *)
+        unfold step_attr in E. rewrite partners_cov in E.
+        assert (Hnil : filter (cov sch e a o) (links s) = []).
+        { destruct (filter (cov sch e a o) (links s)) as [|l ls] eqn:Ef; [reflexivity|]. exfalso.
+          assert (Hl : In l (filter (cov sch e a o) (links s))) by (rewrite Ef; now left).
+          apply filter_In in Hl as [Hl Hc]. destruct (I l Hl) as [_ [_ [_ [Hx Hy]]]].
+          destruct (cov_end _ _ _ _ Hc) as [->| ->]; congruence. }
+        rewrite Hnil in E. cbn in E. injection E as <-. apply claim_refl. }
+    eapply claim_trans; [exact I1 | exact S1 | exact S2 | exact C1|].
+    apply IH; auto.
+    + destruct Eo as [Eo|Eo]; [destruct (proj1 S1 o) as [X|X]; [left; congruence | now right] | right; eapply sub_dead; eassumption].
+    + intros x Hx. apply Hin. now right.
+Qed.
+
+Lemma remove_claim : forall fuel, good2 (remove sch policy fuel).
+Proof.
+  induction fuel as [|f IH]; intros o s s' I R; cbn in R; [discriminate|].
+  destruct (ent_of s o) as [e|] eqn:Eo.
+  2:{ injection R as <-. apply claim_refl. }
+  destruct (fold_opt (fun a => step_attr sch policy (remove sch policy f) o e a) (attr_order sch e) s) as [s1|] eqn:F; [|discriminate].
+  injection R as <-.
+  pose proof (fold_attrs_claim _ o e _ s s1 (remove_good sch WF policy f) IH I (or_introl Eo) (incl_refl _) F) as C.
+  intros l Hl Hn w e' a' Ew Ha' V. cbn [links kill] in Hn.
+  destruct (C l Hl Hn w e' a' Ew Ha' V) as [H|[[<-|[]]|H]].
+  - left. rewrite ent_of_kill. destruct (Nat.eqb (other sch e' a' l) o); [reflexivity | assumption].
+  - left. rewrite ent_of_kill, Nat.eqb_refl. reflexivity.
+  - right; right. assumption.
+Qed.
+
+(* reachable through cascading relationships, in the state before the call *)
+Inductive reach (s : st) (o : oid) : oid -> Prop :=
+| reach_refl : reach s o o
+| reach_step : forall y e a z, reach s o y -> ent_of s y = Some e -> In a (attr_order sch e) -> policy e a = ACascade ->
+                               In z (partners sch s y e a) -> reach s o z.
+
+Lemma closure : forall fuel o s s', inv sch s -> remove sch policy fuel o s = Some s' ->
+  forall p, reach s o p -> ent_of s' p = None.
+Proof.
+  intros fuel o s s' I R p Hr. destruct (remove_good sch WF policy fuel o s s' I R) as [I' [S' D]].
+  induction Hr as [|y e a z Hr IH Ey Ha Hp Hz]; [assumption|].
+  rewrite partners_cov in Hz. apply in_map_iff in Hz as [l [Ez Hl]]. apply filter_In in Hl as [Hl Hc].
+  assert (Hn : ~ In l (links s')).
+  { intro Hin. destruct (I' l Hin) as [_ [_ [_ [Hx Hy]]]]. destruct (cov_end _ _ _ _ Hc) as [E|E]; rewrite E in IH; congruence. }
+  destruct (remove_claim fuel o s s' I R l Hl Hn y e a Ey Ha Hc) as [H|[[]|H]]; [now rewrite <- Ez | congruence].
+Qed.
+
+End Closure.
+
+Lemma closure_alive : forall sch, wf_schema sch = true -> forall policy fuel o s s', inv sch s -> remove sch policy fuel o s = Some s' ->
+  forall p, reach sch policy s o p -> alive s' p = false /\ no_dangling s'.
+Proof.
+  intros sch WF policy fuel o s s' I R p Hr. split.
+  - unfold alive. now rewrite (closure sch WF policy fuel o s s' I R p Hr).
+  - apply (inv_no_dangling sch). now destruct (remove_good sch WF policy fuel o s s' I R).
+Qed.
